@@ -77,11 +77,17 @@ inline void clause(char const * tag, void const * s, char const * prefix, C cons
     std::fflush(f);
 }
 
+// one set for all instantiations of term<> below (Logic, ArithLogic, ...)
+inline std::set<std::pair<void const *, uint32_t>> & seenTerms() {
+    static std::set<std::pair<void const *, uint32_t>> seen;
+    return seen;
+}
+
 // term table: "t <logic> <id> <flags> <sort> <symbol> <child-id>*", children first, each term once
 template<typename LogicT>
 inline void term(LogicT const & logic, PTRef tr) {
     if (!on()) return;
-    static std::set<std::pair<void const *, uint32_t>> seen;
+    auto & seen = seenTerms();
     auto key = std::make_pair(static_cast<void const *>(&logic), tr.x);
     if (seen.count(key)) return;
     auto const & pt = logic.getPterm(tr);
